@@ -252,11 +252,14 @@ def main():
     # another function) with a LOCAL variable as argument; quick: every same-module generic program and a sample
     gp = c08gen.generic_param_programs()
     if ck.quick:
-        must = [it for it in gp if it[0]["gp"][1] == "generic" and it[0]["gp"][2] == "same"]
+        must = [it for it in gp if it[0]["gp"][1] in ("generic", "forward") and it[0]["gp"][2] == "same"]
         rest = [it for it in gp if it not in must]
         rng.shuffle(rest)
-        gp = must + rest[:7]
+        gp = must + rest[:5]
     progs += gp
+    # callees that are no plain call of a function with a body: overloaded operators with Referenz parameters, a sibling
+    # argument that changes the variable while the arguments are evaluated, an operand changed by a later operand
+    progs += c08gen.callee_kind_programs()
     for _ in range(reps):
         # quick: a seed-chosen sample: 40 matrix cells (one holder each) and 46 aliasing shapes (at least one program of
         # every shape); thorough: every cell with both holders and every shape program, four value sets
@@ -358,7 +361,7 @@ def main():
             # fnometa, never elided).  Tables dumped by constx exactly as compiler.VisitFuncCall looks them up.
             gpaths, gmeta = [], []
             for ty in c08gen.GP_TYPES:
-                for flav, place in (("generic", "same"), ("mono", "same"), ("generic", "module")):
+                for flav, place in (("generic", "same"), ("mono", "same"), ("generic", "module"), ("forward", "same")):
                     d, gprog = c08gen.generic_param_program(ty, flav, place, "direct")
                     n = "gx_%s_%s_%s" % (ty, flav, place)
                     f = os.path.join(sc, n + ".ddp")
@@ -378,12 +381,41 @@ def main():
                 for ty in c08gen.GP_TYPES:
                     g, m_, x = tabs[(ty, "generic", "same")], tabs[(ty, "mono", "same")], tabs[(ty, "generic", "module")]
                     analysis_checked += 1
+                    # a forward declared function ('wird später definiert' + 'Die Funktion f macht:') has the table of
+                    # the same function declared with its body (model: a function at the position of the declaration)
+                    fw = tabs[(ty, "forward", "same")]
+                    bad_fw = {k: (fw.get(k), m_[k]) for k in m_ if k.startswith(("kern_", "schreiber", "huelle_")) and fw.get(k) != m_[k]}
+                    if bad_fw:
+                        analysis_bad += 1
+                        ck.broken_obligation("constant-parameter tables of forward declared functions (%s) differ from the tables of the same functions declared with their body: %s" % (ty, bad_fw), "")
                     bad_same = {k: (g.get(k), m_[k]) for k in m_ if k.startswith(("kern_", "schreiber")) and g.get(k) != m_[k]}
                     bad_x = {k: x[k] for k in x if k.startswith(("kern_", "schreiber")) and x[k] != "?"}
                     if bad_same or bad_x:
                         analysis_bad += 1
                         ck.broken_obligation("constant-parameter tables of generic instantiations (%s): same-module instantiations differing from their monomorphic twins %s; cross-module instantiations that carry a table %s (the model analyses a same-module instantiation like a function and gives a cross-module one no table)" % (ty, bad_same, bad_x),
                                              gmeta[0][3]["raw"][:1500])
+            # ---- operator overloads / sibling arguments: the tables the model's reading of the annotator requires
+            # (an overloaded operator is a call of the overloading function)
+            kpaths, kmeta = [], []
+            for d, kprog in c08gen.callee_kind_programs():
+                if not d.get("tables"):
+                    continue
+                f = os.path.join(sc, "kx_%d.ddp" % len(kpaths))
+                open(f, "w").write(kprog["raw"])
+                kpaths.append(f)
+                kmeta.append(d)
+            kp_ = subprocess.run([cx], input="\n".join(kpaths) + "\n", capture_output=True, text=True, timeout=900, env=dict(os.environ, DDPPATH=b.dir))
+            kouts = kp_.stdout.splitlines()
+            if len(kouts) != len(kpaths) or not all(o.startswith("OK") for o in kouts):
+                ck.broken_obligation("constx failed on the operator / sibling-argument programs", (kp_.stdout + kp_.stderr)[-1500:])
+            else:
+                for d, o in zip(kmeta, kouts):
+                    got = {w.split(":")[0]: w.split(":")[1] for w in o.split()[1:]}
+                    analysis_checked += 1
+                    badk = {k: (got.get(k), v) for k, v in d["tables"].items() if got.get(k) != v}
+                    if badk:
+                        analysis_bad += 1
+                        ck.broken_obligation("constant-parameter tables (annotator, expected) of '%s': %s" % (d["name"], badk), "")
     log("[c08] generation+model+constx done at %.0fs" % (_t.time() - T0))
     # ---- run
     jobs = [(i, o) for i in range(len(items)) for o in opts]
